@@ -52,9 +52,20 @@ func cellOf(a, min, max float64, z int64) (lo, hi int64) {
 func runC17(c *core.Case) {
 	r := c.R
 	var min, span float64
-	switch r.Intn(6) {
+	switch r.Intn(7) {
 	case 0:
 		min, span = -256, 512
+	case 6: // ranges wider than the 2^26 m of the voxel domain, or reaching beyond it on one side
+		switch r.Intn(3) {
+		case 0:
+			min = -pow2f(r.Range(25, 31))
+			span = -2 * min
+		case 1:
+			min, span = 0, pow2f(r.Range(26, 33))
+		default:
+			span = math.Pow(10, r.Uniform(7.8, 10))
+			min = -span * r.Uniform(0, 1)
+		}
 	case 1:
 		min, span = -pow2f(r.Range(0, 24)), 0
 		span = -2 * min
